@@ -45,6 +45,46 @@ NEEDS = {
              "an interrupt between the append and the end of the rule's action() hook (about 1 % of the crash points)"),
  'S20-C20': ("guarded.py initialize(): display scale factors cached on precision+guard only",
              "an earlier guarded election with the same precision+guard and a different display"),
+ 'R01-C01': ("mpls.py epilogue: 'hopeful == seatsLeft' instead of '<='",
+             "mpls with [undeclared ...] write-ins leaving fewer declared candidates than seats, one declared candidate below the threshold"),
+ 'R02-C02': ("meek.py distributeVotes: E.residual recomputed as the sum over E.ballots only (equal-ranking ballots live in E.ballotsEqual)",
+             "meek/warren, an equal-ranking ballot that loses weight to the residual"),
+ 'R03-C03': ("cfer.py batchDefeat: total surplus dropped from condition (k)(3)(C)",
+             "cfer-batch, >= 3 seats, >= 5 candidates, a pending surplus, and sum(set) < threshold - top <= sum(set) + surplus"),
+ 'R04-C04': ("cfer.py election step filters with hasSurplus (vote > threshold) instead of hasQuota",
+             "cfer/cfer-batch, a tally landing exactly on the fractional threshold after a transfer (smallest natural case > 300 ballots)"),
+ 'R06-C06': ("wigm.py: re-weighting and transfer loop skipped when the surplus is zero",
+             "wigm with integer / fixed / guard=0 arithmetic (usually integer_quota) and a winner exactly on the quota; tallies unchanged, only ballot positions/values wrong"),
+ 'R07-C07': ("candidates.py byVote: secondary sort key tieOrder instead of ballot order",
+             "two equal-tally candidates elected in one stage (or in one batch) with a tie order that differs from ballot order; no tie is logged"),
+ 'R08-C08': ("meek.py: keep factor of the excluded candidate zeroed only on the omega path",
+             "meek/warren, an exclusion after an 'Iterate (stable)' end (fixed or guard=0 arithmetic with a fine omega)"),
+ 'R09-C09': ("cfer.py 'Elect all' shortcut counts all candidates including withdrawn ones",
+             "cfer/cfer-batch, withdrawn candidates leaving exactly as many candidates as seats, one of them below the threshold"),
+ 'R10-C10': ("profile.py tokenizer: quote mode entered while inside a /* */ comment",
+             "a block comment containing a token that starts with a double quote"),
+ 'R11-C11': ("profile.py BallotLine: empty ranks removed from the list being iterated",
+             "two withdrawn candidates adjacent on a ballot (at its head, or forming the whole ballot)"),
+ 'R12-C12': ("rational.py: reversed operators no longer wrapped (dedented out of the loop) - int (op) Rational returns a Fraction",
+             "rational arithmetic with a Python int or Fraction as the LEFT operand of + - * /"),
+ 'R13-C13': ("guarded.py div, guard==0 branch: round-up skipped when the truncated quotient is 0",
+             "guard=0, round='up', a non-zero dividend whose quotient truncates to 0 (in counts: a huge block of bullet votes relative to 10^precision)"),
+ 'R14-C14': ("rational.py __str__: round() (half to even) instead of half-up",
+             "rational arithmetic, a value exactly on half a display unit with an even lower neighbour (small display, dyadic values)"),
+ 'R15-C15': ("profile.py tokenizer: '#' recognised as a line comment while inside a /* */ comment",
+             "a block comment containing a token that starts with '#', with the closing */ later on the same line"),
+ 'R16-C16': ("profile.py getCid: str.isdigit() instead of the \\d+ regex, then int() fails on non-decimal unicode digits",
+             "a candidate position (ranking, '=' group, [tie]/[withdrawn]/[undeclared]) holding a token such as the superscript two"),
+ 'R17-C17': ("options.py setopt: the value is read before the force layer is updated, so a forcing setopt returns the caller's value",
+             "wigm with arithmetic=integer and a non-zero precision option: the count runs with that precision while the record says 0 is forced"),
+ 'R18-C18': ("record.py report: zero-vote group selected by truthiness instead of '== V0'",
+             "guarded arithmetic, a defeated candidate holding a non-zero tally below the comparison tolerance: it vanishes from the report"),
+ 'R19-C19': ("record.py _fill: filled = True set first",
+             "an interrupt while the header keys are being stored inside the first begin/round action (3-6 % of the crash points of a tiny election)"),
+ 'R20-C20': ("meek.py dist(): equal-rank lists of the profile pruned in place",
+             "meek/warren, an equal-ranking ballot whose group loses a defeated member, then the SAME ElectionProfile object counted again"),
+ 'R05-C05': ("(see notes.txt)", "(see notes.txt)"),
+
 }
 for name, (what, needs) in NEEDS.items():
     d = os.path.join(HERE, 'seeded', name)
@@ -53,7 +93,8 @@ for name, (what, needs) in NEEDS.items():
     p = os.path.join(d, 'meta.json')
     m = json.load(open(p)) if os.path.exists(p) else {}
     m.update(property=name.split('-')[1], change=what, needs=needs,
-             origin='independent sub-agent given only the property text and a scratch worktree of /repo (nothing from /verif)',
+             origin='independent sub-agent given only the property text and a scratch worktree of /repo (nothing from /verif)' + (
+                 '; second round: also told which change had already been proposed for the property, and asked for a different, subtler one' if name.startswith('R') else ''),
              ran='tools/seed_eval.py: scratch copy of /repo; demo.py on the original (must pass) and on the changed copy (must fail); the unedited '
                  'pytest suite on the changed copy (must pass); then every quick check with DROOP_REPO pointing at the changed copy '
                  '(the property\'s own check at full scale, the others at the scale recorded per check)')
